@@ -8,6 +8,7 @@ import Driver.Client
 import Driver.C06
 import Driver.C10
 import Driver.C11
+import Driver.C13
 import Driver.Pool
 import Driver.C18
 /-!
@@ -46,6 +47,9 @@ def dispatch (line : String) : String :=
     | "hvalrt" => C02.hvalOp true args
     | "hname" => C02.hnameOp args
     | "mime" => C11.mimeOp args
+    | "dkim" => C13.dkimOp args
+    | "dkimbody" => C13.dkimbodyOp args
+    | "dkimhdrs" => C13.dkimhdrsOp args
     | "mbox" => C17.mboxOp args
     | "mboxlist" => C17.mboxlistOp args
     | "mboxparse" => C17.mboxparseOp args
